@@ -361,6 +361,37 @@ def run(ctx):
             ctx.count("multidim-bler")
             if abs(bl - r[1] / r[0]) > 1e-6:
                 ctx.violation("C16/BlockErrorRate/forward/multi-dim", "BLER on shape %s wrong: %r vs %d/%d" % (shape, bl, r[1], r[0]), {"shape": list(shape), "B": B})
+    # ------------------------------------------------------------------ the same tensor objects used again, in the dtypes a caller may hold bits in
+    for dt in (torch.bool, torch.uint8, torch.int32, torch.int64, torch.float32, torch.float64):
+        xb_ = torch.tensor([[1, 0, 1, 1, 0, 0, 1, 0], [0, 0, 1, 0, 1, 1, 1, 0]]).to(dt)
+        yb_ = torch.tensor([[1, 1, 1, 0, 0, 0, 1, 1], [0, 0, 0, 0, 1, 1, 0, 0]]).to(dt)
+        x0, y0 = xb_.clone(), yb_.clone()
+        errs = int((x0.to(torch.int64) != y0.to(torch.int64)).sum())
+        nbits = x0.numel()
+        for mname, mk in (("BitErrorRate", lambda: BitErrorRate()), ("BlockErrorRate", lambda: blermod.BlockErrorRate(block_size=4))):
+            try:
+                m = mk()
+                f1 = float(m(xb_, yb_))
+                f2 = float(m(yb_, xb_))
+                m.reset()
+                m.update(xb_, yb_)
+                m.update(xb_, yb_)
+                m.update(yb_, xb_)
+                v3 = float(m.compute())
+            except Exception as ex:
+                ctx.note("%s on %s inputs raised %s" % (mname, str(dt).split(".")[1], str(ex)[:60]))
+                continue
+            ctx.count("reused-tensor-cases")
+            ctx.nontriv(("reuse", mname, str(dt)))
+            if mname == "BitErrorRate":
+                exp = errs / nbits
+            else:
+                blk_err = int(((x0.to(torch.int64) != y0.to(torch.int64)).reshape(-1, 4).any(dim=1)).sum())
+                exp = blk_err / (nbits // 4)
+            bad = not (torch.equal(xb_, x0) and torch.equal(yb_, y0))
+            if bad or abs(f1 - exp) > 1e-6 or abs(f2 - exp) > 1e-6 or abs(v3 - exp) > 1e-6:
+                ctx.violation("C16/%s/reused-tensors" % mname, "%s on %s tensors used again: forward(x,y)=%.6f, forward(y,x)=%.6f, three updates then compute=%.6f, exact rate %.6f; inputs %s" % (
+                    mname, str(dt).split(".")[1], f1, f2, v3, exp, "modified" if bad else "unchanged"), {"metric": mname, "dtype": str(dt)})
     # ------------------------------------------------------------------ long accumulation: counts beyond 2^24 stay exact
     big = (1 << 24) + 3
     xb = torch.zeros(big)
